@@ -21,9 +21,12 @@ def run(ctx):
         T += [('seq.d1.h7.n3', D(1, 7, 3, 2), [-4, -1, 1, -2, 0, 0], 1200, ''), ('seq.d2.h5.n2', D(2, 5, 2, 1), [-3, -1, 1, -2, 0, 0], 1800, ''),
               ('seq.d3.h4.n2', D(3, 4, 2, 1), [-3, 0, 1, -1, 0, 0], 2400, ''), ('seq.d3.h3.n3', D(3, 3, 3, 1), [-2, -1, 1, -2, 0, 0], 2400, ''),
               ('seq.d4.h3.n2', D(4, 3, 2, 1), [-2, -1, 1, -1, 0, 0], 1800, ''), ('seq.d3.h3.n2.float', D(3, 3, 2, 1, REALT='float', BOX=1), [-3, -1, 1, -2, 0, 0], 900, '')]
+    T.append(('seq.hilbert.d3.h4', D(3, 4, 2, 1, ORD=2), [2, 0, 1, -1, 0, 0], 90, 'Hilbert ordering, one translation level: the children handed to M2M/L2L must lie inside the parent (known finding F5)'))
     ctx.bounds.update(dict(trees='Dim 1-3 (4 thorough), heights 2-5 (7 thorough), 2-3 particles, block sizes 1..N+1, both grouping modes, upper level {2,0}',
                            executors='sequential (this module); target/source under C09, periodic + top tree under C10, OpenMP under C03 - each with the same checking kernel',
-                           outside='Hilbert ordering is reported under C11/C19 (known finding: parents do not contain their children); Specx/StarPU executors (not buildable here)'))
+                           outside='Specx/StarPU executors (not buildable here); the Hilbert row is explored up to 3000 paths only (it exists to pin the known finding)'))
     ctx.assumptions += ASSUME
-    run_specs(ctx, 'w_tree.cpp', 'h_c01', T, expect_reach=(22, 47))
+    S = [dict(name=n, wrapper='w_tree.cpp', defines=d, entry='h_c01', args=a, time_limit=tl, note=note, expect_reach=(22, 47), max_paths=(3000 if 'hilbert' in n else 10**9)) for (n, d, a, tl, note) in T]
+    from .. import e2
+    e2.run_configs(ctx, S)
     return finish(ctx, TEXT)
